@@ -44,21 +44,20 @@ macro_rules! owned_bitop {
     }};
 }
 
-/// owned operands that fill their last storage word exactly (16 symbols) or spill one symbol into the next (17)
-macro_rules! owned_bitop_long {
-    ($x:expr, $y:expr, $n:expr, $or:expr) => {{
-        let w = any_words::<3>();
-        let s = arr::<Iupac, 48, 3>(w);
-        let a = owned_cap(&s, $x, $n, $n);
-        let b = owned_cap(&s, $y, $n, $n);
+/// owned operands that fill their last storage word exactly (16 symbols): each operand is one typed word
+macro_rules! owned_bitop_word {
+    ($or:expr) => {{
+        let (x, y) = (any_usize(), any_usize());
+        let a = owned1::<Iupac>(x, 16);
+        let b = owned1::<Iupac>(y, 16);
         let r: Seq<Iupac> = if $or { a.bit_or(b) } else { a.bit_and(b) };
-        assert!(r.len() == $n, "C12.owned_op.len");
+        assert!(r.len() == 16, "C12.owned_op.len");
         let i = any_usize();
-        assume(i < $n);
-        let (ca, cb) = (sym(&w, 4 * $x, 4, i), sym(&w, 4 * $y, 4, i));
+        assume(i < 16);
+        let (ca, cb) = (((x >> (4 * i)) & 15) as u8, ((y >> (4 * i)) & 15) as u8);
         let want = if $or { ca | cb } else { ca & cb };
         assert!(r.nth(i).to_bits() == want, "C12.owned_op.position_is_union_or_intersection");
-        reach!(i + 1 == $n, "last position");
+        reach!(i == 15, "last position");
         core::mem::forget(r);
     }};
 }
@@ -134,8 +133,8 @@ harnesses! {
     }
     fn c12_q_owned_or_1_9_n2 [10] { owned_bitop!(1, 9, 2, true) }
     fn c12_q_owned_and_15_0_n2 [10] { owned_bitop!(15, 0, 2, false) }
-    fn c12_p_owned_or_1_20_n16 [20] { owned_bitop_long!(1, 20, 16, true) }
-    fn c12_p_owned_and_3_29_n17 [20] { owned_bitop_long!(3, 29, 17, false) }
+    fn c12_p_owned_or_word [20] { owned_bitop_word!(true) }
+    fn c12_p_owned_and_word [20] { owned_bitop_word!(false) }
 
     fn c12_x_contains_0_2_5_2 [10] { contains!(0, 2, 5, 2, 0) }
     fn c12_x_contains_15_2_1_2 [10] { contains!(15, 2, 1, 2, 0) }
